@@ -8,6 +8,7 @@ EXPLANATION = ("C08: a second peer is refused with NNG_EBUSY before any socket s
                "disconnects on a malformed header, drops without disconnect beyond the ttl, and increments the hop count on "
                "send; sends never discard; the buffers are touched only through the FIFO accessors."
                " Also: only the attached peer's teardown touches the socket state (R4); wait lists are served in arrival order (R5).")
+EXPLANATION += " Round 6: a pair pipe's completion callbacks act on the pairing only while their pipe is the attached peer (R8); the hop word taken from the wire stays unsigned until it is range-checked (R9 = C11.R14)."
 
 
 def rule_r1(ctx):
